@@ -373,6 +373,7 @@ def program(r, size=3):
 # stage 11: lambda expressions as arguments.
 # stage 12: functions that return closures (over their parameters and a mutable local), passed on to function parameters.
 # stage 13: function-valued constants  c :: mk(e)  /  c :: f : called by name and passed on.
+# stage 14: computed callees  mk(e)(a)  and lambdas called where they are written.
 
 class FragGen:
     def __init__(self, r, stage=1):
@@ -409,6 +410,14 @@ class FragGen:
 
     def int_expr(self, env, d):
         r = self.r
+        if self.stage >= 14 and d > 0 and r.random() < 0.12:
+            # stage 4i: the callee is computed
+            if env.get("makers") and r.random() < 0.7:
+                return "%s(%s)(%s)" % (r.choice(env["makers"]), r.choice(env["ints"] + [str(r.randint(0, 9))]), self.int_expr(env, d - 1))
+            z = self.fresh("z")
+            lenv = {k2: list(v) for k2, v in env.items()}
+            lenv["ints"] = list(env["ints"]) + [z]
+            return "(fn %s: int -> int do\n%s\nend)(%s)" % (z, self.int_expr(lenv, 1), self.int_expr(env, d - 1))
         if self.stage >= 10 and env.get("hofs") and d > 0 and r.random() < 0.25 and (self.stage >= 11 or any(k == 1 for _, k in env.get("funs", []))):
             return self.hof_call(env)
         if self.stage >= 4 and env.get("funs") and d > 0 and r.random() < 0.2:
